@@ -58,6 +58,7 @@ pub fn property() -> Property {
                 min_nontrivial: 1_000_000,
                 required_labels: &[
                     "pair:both-eligible",
+                    "ff-like:recreates-itself-and-asserts-parent-second",
                     "fingerprints-equal",
                     "fingerprints-equal:lists-differ",
                     "fingerprints-equal:lists-differ:hint-shape",
